@@ -1674,6 +1674,9 @@ func TestC20(t *testing.T) {
 	}
 	c20CheckRT(t, c)
 	c20CheckDisp(t, c)
+	if !t.Failed() {
+		c20CheckTraffic(t, c)
+	}
 }
 
 func init() {
